@@ -37,13 +37,15 @@ class _Clock:
 def _terms():
     """z3 terms of one TokenBucket.consume() step, generated from the live source."""
     C, r, tok, last, now = z3.Reals("C r tok last now")
-    env = {"self.capacity": C, "self.refill_rate": r, "self.tokens": tok, "self.last_update": last,
-           "tokens": z3.RealVal(1)}
+    from vf.py2smt import INF_AXIOM
+    state, _fresh = _bucket_state("aux_", C, r, tok, last, last)
+    env = dict(state)
+    env["tokens"] = z3.RealVal(1)
     leaves = run_function(TokenBucket.consume, env, calls={"time.monotonic": lambda: now})
     adm = merge(leaves)
     tok2 = merge(leaves, "self.tokens")
     last2 = merge(leaves, "self.last_update")
-    pre = z3.And(C >= 1, r > 0, tok >= 0, tok <= C, last >= 0, now >= last)
+    pre = z3.And(C >= 1, r > 0, tok >= 0, tok <= C, last >= 0, now >= last, INF_AXIOM)
     return dict(C=C, r=r, tok=tok, last=last, now=now, adm=adm, tok2=tok2, last2=last2, pre=pre, n_leaves=len(leaves))
 
 
@@ -141,13 +143,12 @@ def window_k():
         total = z3.RealVal(0)
         for i in range(1, k + 1):
             cons.append(ts[i] >= ts[i - 1])
-            env = {"self.capacity": C, "self.refill_rate": r, "self.tokens": tok, "self.last_update": last,
-                   "tokens": z3.RealVal(1)}
             now = ts[i]
-            leaves = run_function(TokenBucket.consume, env, calls={"time.monotonic": (lambda n=now: n)})
-            adm = merge(leaves)
-            tok = merge(leaves, "self.tokens")
-            last = merge(leaves, "self.last_update")
+            if i == 1:
+                state, fresh = _bucket_state("w%d_" % k, C, r, tok, last, ts[0])
+                state = dict(fresh)
+            adm, state = _consume_from(state, now)
+            tok, last = state["self.tokens"], state["self.last_update"]
             total = total + z3.If(adm, z3.RealVal(1), z3.RealVal(0))
         recs.append(decide("window k=%d: admitted <= C + r*(t_k - t_1)" % k,
                            cons + [z3.Not(total <= C + r * (ts[k] - ts[1]))], TMO, cross=(k <= 3)))
@@ -167,38 +168,75 @@ def _evict_pred(env):
     return it.truth(it.expr(test, env))
 
 
+def _bucket_state(prefix, C, r, tok, last, t_init):
+    """Symbolic TokenBucket state: the attributes __init__ assigns; capacity/refill_rate/tokens/
+    last_update are the named reals, any further (cached, derived) attribute a fresh real."""
+    leaves = run_function(TokenBucket.__init__, {"capacity": C, "refill_rate": r, "self": None},
+                          calls={"time.monotonic": lambda: t_init})
+    if len(leaves) != 1:
+        raise Unsupported("branching __init__")
+    fresh_env = leaves[0][1]
+    attrs = [k for k in fresh_env if k.startswith("self.")]
+    known = {"self.capacity": C, "self.refill_rate": r, "self.tokens": tok, "self.last_update": last}
+    state = {}
+    for k in attrs:
+        state[k] = known[k] if k in known else z3.Real(prefix + k[5:])
+    return state, {k: fresh_env[k] for k in attrs}
+
+
+def _consume_from(state, now):
+    env = dict(state)
+    env["tokens"] = z3.RealVal(1)
+    leaves = run_function(TokenBucket.consume, env, calls={"time.monotonic": lambda: now})
+    post = {k: merge(leaves, k) for k in state}
+    return merge(leaves), post
+
+
 def cleanup_neutral():
-    """whenever the clean-up loop evicts a bucket, a fresh bucket grants no more than the
-    evicted one would have: min(capacity, tokens + rate*idle) == capacity."""
-    C, r, tok, last, now = z3.Reals("C r tok last now")
-    pre = z3.And(C >= 1, r > 0, tok >= 0, tok <= C, last >= 0, now >= last)
-    env = {"now": now, "bucket.last_update": last, "bucket.tokens": tok, "bucket.refill_rate": r,
-           "bucket.capacity": C, "self.config.capacity": C, "self.config.refill_rate": r}
-    evict = _evict_pred(env)
-    refill = z3.If(C <= tok + (now - last) * r, C, tok + (now - last) * r)
+    """whenever the clean-up loop evicts a bucket, a fresh bucket grants no more than the evicted one
+    would have: min(capacity, tokens + rate*idle) == capacity.  The evicted bucket is any bucket as its
+    last consume() (or its creation) left it, so cached / derived attributes are covered too."""
+    from vf.py2smt import INF_AXIOM
+    C, r, tok, last, t1, t2 = z3.Reals("C r tok last t1 t2")
+    pre = z3.And(C >= 1, r > 0, tok >= 0, tok <= C, last >= 0, t1 >= last, t2 >= t1, INF_AXIOM)
+    state, fresh = _bucket_state("aux_", C, r, tok, last, t1)
+    adm, post = _consume_from(state, t1)
+
+    def env_of(st):
+        e = {"now": t2, "self.config.capacity": C, "self.config.refill_rate": r}
+        for k, v in st.items():
+            e["bucket." + k[5:]] = v
+        return e
+
+    def refill(st):
+        tk, ls = st["self.tokens"], st["self.last_update"]
+        return z3.If(C <= tk + (t2 - ls) * r, C, tk + (t2 - ls) * r)
+    ev_post = _evict_pred(env_of(post))
+    ev_fresh = _evict_pred(env_of(fresh))
     recs = [
-        decide("cleanup neutral: evict => refilled allowance == capacity", [pre, evict, z3.Not(refill == C)], TMO),
-        decide("reachability twin: some bucket is evicted", [pre, evict], TMO),
+        decide("cleanup neutral after a consume(): evict => refilled allowance == capacity", [pre, ev_post, z3.Not(refill(post) == C)], TMO),
+        decide("cleanup neutral for a fresh bucket", [pre, ev_fresh, z3.Not(refill(fresh) == C)], TMO),
+        decide("reachability twin: some bucket is evicted", [pre, ev_post], TMO),
         decide("idle full buckets are eventually evicted (state does not grow without bound)",
-               [pre, tok == C, now - last > 100000, z3.Not(evict)], TMO),
+               [pre, post["self.tokens"] == C, t2 - t1 > 100000, z3.Not(ev_post)], TMO),
     ]
-    if recs[1]["z3"] != "sat":
+    if recs[2]["z3"] != "sat":
         return _smt_result(recs, "harness-error", "vacuous: eviction predicate unsatisfiable")
-    v = _all_unsat([recs[0], recs[2]])
+    v = _all_unsat([recs[0], recs[1], recs[3]])
     if v == "refuted":
-        bad = recs[0] if recs[0]["z3"] == "sat" else recs[2]
+        bad = [x for x in (recs[0], recs[1], recs[3]) if x["z3"] == "sat"][0]
         m = bad["model"]
-        vals = {k: frac(m.get(k, "0")) for k in ("C", "r", "tok", "last", "now")}
-        call = "replay_cleanup(%(C)r, %(r)r, %(tok)r, %(last)r, %(now)r)" % vals
-        rp = replay_cleanup(**vals) if bad is recs[0] else False
+        vals = {k: frac(m.get(k, "0")) for k in ("C", "r", "tok", "last", "t1", "t2")}
+        call = "replay_cleanup(%(C)r, %(r)r, %(tok)r, %(last)r, %(t1)r, %(t2)r)" % vals
+        rp = replay_cleanup(**vals) if bad is not recs[3] else False
         return _smt_result(recs, "refuted" if rp is False else "harness-error", bad["query"], call=call,
-                           replay={"reproduced": rp is False, "detail": "real RateLimiter: one pass of the clean-up loop body on the model"})
-    return _smt_result(recs, v, samples=[recs[1].get("model")])
+                           replay={"reproduced": rp is False, "detail": "real RateLimiter: consume() at t1, one pass of the clean-up loop body at t2, on the model"})
+    return _smt_result(recs, v, samples=[recs[2].get("model"), {"bucket_attributes": sorted(state)}])
 
 
-def replay_cleanup(C, r, tok, last, now):
-    """Real RateLimiter: bucket state (tok,last), clock at `now`, run one pass of the real
-    _cleanup_loop body, then count admissions at `now` with and without the clean-up."""
+def replay_cleanup(C, r, tok, last, t1, t2):
+    """Real RateLimiter: bucket state (tok,last), a real consume() at t1, then one pass of the real
+    _cleanup_loop body at t2; admissions at t2 are counted with and without the clean-up."""
     import math
     cap = int(math.ceil(C))
     clk = _Clock(last)
@@ -218,13 +256,16 @@ def replay_cleanup(C, r, tok, last, now):
     mw.asyncio = _FA()
     try:
         def mk():
+            clk.now = last
             rl = RateLimiter(RateLimitConfig(capacity=cap, refill_rate=r))
             b = TokenBucket(cap, r)
             b.tokens = min(tok, cap)
             b.last_update = last
             rl.buckets["203.0.113.9"] = b
+            clk.now = t1
+            b.consume()
+            clk.now = t2
             return rl
-        clk.now = now
         with_cleanup = mk()
         co = with_cleanup._cleanup_loop()
         try:
@@ -260,14 +301,15 @@ def fp_side():
            "tokens": z3.FPVal(1.0, F)}
     import vf.py2smt as p2
 
-    old_num = p2._num
+    old_num, old_inf = p2._num, p2.INF
+    p2.INF = z3.fpPlusInfinity(F)
     p2._num = lambda v: z3.FPVal(float(v), F) if isinstance(v, (int, float)) and not isinstance(v, bool) else old_num(v)
     try:
         leaves = run_function(TokenBucket.consume, env, calls={"time.monotonic": lambda: fnow})
         adm = merge(leaves)
         tok2 = merge(leaves, "self.tokens")
     finally:
-        p2._num = old_num
+        p2._num, p2.INF = old_num, old_inf
     recs = [decide("fp inv: 0 <= tokens' <= capacity (binary64, RNE)",
                    [pre, z3.Not(z3.And(z3.fpGEQ(tok2, z3.FPVal(0.0, F)), z3.fpLEQ(tok2, fC)))], pick(120, 600), logic="QF_FP")]
     v = _all_unsat(recs)
